@@ -222,7 +222,7 @@ impl FloatEncoding for f32 {
             } else {
                 Inexact(f32::NEG_INFINITY, Sign::Negative)
             };
-        } else if top_bit < -125 - 23 {
+        } else if top_bit < -126 - 23 {
             // underflow
             return if sign == 0 {
                 Inexact(0f32, Sign::Negative)
@@ -243,9 +243,13 @@ impl FloatEncoding for f32 {
                 round_bits = 0; // not rounding is required
                 mantissa <<= shift as u32;
             } else {
-                let shifted = mantissa << (30 + shift) as u32;
-                round_bits = (shifted >> 28 & 0b110) as u8 | ((shifted & 0x1fffffff) != 0) as u8;
-                mantissa >>= (-shift) as u32;
+                // drop the lowest bits (1 to 32 of them) and collect the rounding bits
+                let drop = (-shift) as u32;
+                let kept = if drop < u32::BITS { mantissa >> drop } else { 0 };
+                let round = (mantissa >> (drop - 1)) & 1;
+                let sticky = mantissa & ((1 << (drop - 1)) - 1) != 0;
+                round_bits = ((kept & 1) << 2 | round << 1) as u8 | sticky as u8;
+                mantissa = kept;
             }
 
             // then compose the bit representation of f32
@@ -364,10 +368,13 @@ impl FloatEncoding for f64 {
                 round_bits = 0; // not rounding is required
                 mantissa <<= shift as u32;
             } else {
-                let shifted = mantissa << (62 + shift) as u64;
-                round_bits =
-                    (shifted >> 60 & 0b110) as u8 | ((shifted & 0x1fffffffffffffff) != 0) as u8;
-                mantissa >>= (-shift) as u32;
+                // drop the lowest bits (1 to 64 of them) and collect the rounding bits
+                let drop = (-shift) as u32;
+                let kept = if drop < u64::BITS { mantissa >> drop } else { 0 };
+                let round = (mantissa >> (drop - 1)) & 1;
+                let sticky = mantissa & ((1 << (drop - 1)) - 1) != 0;
+                round_bits = ((kept & 1) << 2 | round << 1) as u8 | sticky as u8;
+                mantissa = kept;
             }
 
             // then compose the bit representation of f64
